@@ -13,6 +13,7 @@ import Ctrmml.Proofs.LayoutDec
 import Ctrmml.Proofs.StarDecimal
 import Ctrmml.Proofs.LayoutLines2
 import Ctrmml.Proofs.LayoutDec2
+import Ctrmml.Proofs.LayoutTransfer
 import Ctrmml.Proofs.IdsBound
 import Ctrmml.Spec.Layout
 namespace Ctrmml.C06
@@ -799,5 +800,111 @@ theorem C06_multitrack_eq_single_blocks16_partial (ids : List Nat) (j a : Nat) (
 
 /-- the block example of round 2 meets the 16-bit hypothesis -/
 example : [0, 1, 2].Nodup ∧ ∀ id ∈ [0, 1, 2], id < 65536 := by decide
+
+/-! ### round 4: the round-3 theorems subsume the round-2 ones; separators for the round-3 set
+
+On the round-2 command set `LCovered` every round-3 notion is the round-2 one
+(Proofs/LayoutTransfer: `L2.agree_of_old`, `L2.runCmds_of_old`, `L2.cmdsOk_of_old`, `L2.toksOk_of_old`,
+`L2.lineOk_of_old`, `L2.linesOk_of_old`).  `ToksOk`/`LineOk`/`LinesOk` say nothing about WHICH commands
+occur (only that each look-ahead condition holds), so their transfer takes "the commands are in
+`LCovered`" as a hypothesis; in the whole-line theorems that fact is part of `CmdsOk`
+(`cmdsOk_covered`), so the round-2 statements follow from the round-3 ones with no extra hypothesis. -/
+
+open Ctrmml.MmlMeaning (Cmd) in
+/-- OLD ⇒ NEW, per command: a round-2 command is a round-3 command, and builder call, number
+condition, look-ahead condition and blank count are the same in both rounds -/
+theorem C06_lcovered_transfer (c : Cmd) (h : LCovered c) :
+    LCovered2 c ∧ (∀ t, L2.lcmdTrack t c = lcmdTrack t c) ∧ (∀ t, L2.LCmdNums t c = LCmdNums t c) ∧
+    (∀ tail, L2.LCmdTail c tail = LCmdTail c tail) ∧ (∀ tail, L2.lcmdSkip c tail = lcmdSkip c tail) :=
+  ⟨L2.lcovered_of_old c h, L2.agree_of_old c h⟩
+
+open Ctrmml.MmlMeaning (Cmd) in
+/-- OLD ⇒ NEW, command lists: `CmdsOk` ⇒ `L2.CmdsOk`, with the same builder calls -/
+theorem C06_cmdsOk_transfer (t : Track) (cs : List Cmd) (h : CmdsOk t cs) : L2.CmdsOk t cs ∧ L2.runCmds t cs = runCmds t cs :=
+  ⟨L2.cmdsOk_of_old cs t h, L2.runCmds_of_old cs t (cmdsOk_covered t cs h)⟩
+
+/-- OLD ⇒ NEW, lines: `LinesOk` ⇒ `L2.LinesOk` for layouts whose commands are round-2 commands -/
+theorem C06_linesOk_transfer (ids : List Nat) (r : Bool) (ls : List LLine) (h : LinesOk ids r ls)
+    (hcov : ∀ c ∈ layoutCmds ls, LCovered c) : L2.LinesOk ids r ls :=
+  L2.linesOk_of_old ids ls r h hcov
+
+/-- `C06_layout_run_partial` (round 2) DERIVED from `C06_layout_run2_partial` (round 3): same
+hypotheses, same conclusion as the round-2 theorem. -/
+theorem C06_layout_run_from_v2 (ids : List Nat) (ls : List LLine) (n : Nat) (s : MmlState) (r : Bool)
+    (hnd : ids.Nodup) (hne : ids ≠ []) (hok : LinesOk ids r ls) (hready : r = true → Ready ids s)
+    (hcmds : ∀ id ∈ ids, CmdsOk (trackOf id s).strip (layoutCmds ls)) :
+    ∃ s', readLines n (ls.map LLine.text) s = .ok () s' ∧
+      (∀ id ∈ ids, (trackOf id s').strip = runCmds (trackOf id s).strip (layoutCmds ls)) ∧
+      (∀ b, b ∉ ids → s'.song.tracks.lookup b = s.song.tracks.lookup b) := by
+  obtain ⟨hcov, hok2, hc2⟩ := L2.hyps_of_old ids ls r s hne hok hcmds
+  obtain ⟨s', h1, h2, h3⟩ := C06_layout_run2_partial ids ls n s r hnd hne hok2 hready hc2
+  exact ⟨s', h1, fun id hid => by rw [h2 id hid, L2.runCmds_of_old _ _ hcov], h3⟩
+
+/-- `C06_layout_invariant_partial` (round 2) DERIVED from `C06_layout_invariant2_partial` -/
+theorem C06_layout_invariant_from_v2 (a : Nat) (ids1 ids2 : List Nat) (ls1 ls2 : List LLine) (n1 n2 : Nat) (s1 s2 : MmlState) (r1 r2 : Bool)
+    (ha1 : a ∈ ids1) (ha2 : a ∈ ids2) (hnd1 : ids1.Nodup) (hnd2 : ids2.Nodup)
+    (hok1 : LinesOk ids1 r1 ls1) (hok2 : LinesOk ids2 r2 ls2) (hr1 : r1 = true → Ready ids1 s1) (hr2 : r2 = true → Ready ids2 s2)
+    (hsame : layoutCmds ls1 = layoutCmds ls2) (hstart : (trackOf a s1).strip = (trackOf a s2).strip)
+    (hc1 : ∀ id ∈ ids1, CmdsOk (trackOf id s1).strip (layoutCmds ls1))
+    (hc2 : ∀ id ∈ ids2, CmdsOk (trackOf id s2).strip (layoutCmds ls2)) :
+    ∃ s1' s2', readLines n1 (ls1.map LLine.text) s1 = .ok () s1' ∧ readLines n2 (ls2.map LLine.text) s2 = .ok () s2' ∧
+      (trackOf a s1').strip = (trackOf a s2').strip ∧ (trackOf a s1').getEvents = (trackOf a s2').getEvents := by
+  obtain ⟨_, hok1', hc1'⟩ := L2.hyps_of_old ids1 ls1 r1 s1 (List.ne_nil_of_mem ha1) hok1 hc1
+  obtain ⟨_, hok2', hc2'⟩ := L2.hyps_of_old ids2 ls2 r2 s2 (List.ne_nil_of_mem ha2) hok2 hc2
+  exact C06_layout_invariant2_partial a ids1 ids2 ls1 ls2 n1 n2 s1 s2 r1 r2 ha1 ha2 hnd1 hnd2 hok1' hok2' hr1 hr2 hsame hstart hc1' hc2'
+
+/-- `C06_multitrack_eq_single_partial` (round 2) DERIVED from `C06_multitrack_eq_single2_partial` -/
+theorem C06_multitrack_eq_single_from_v2 (ids : List Nat) (a : Nat) (multi single : List LLine) (n1 n2 : Nat) (s : MmlState)
+    (ha : a ∈ ids) (hnd : ids.Nodup) (hok1 : LinesOk ids false multi) (hok2 : LinesOk [a] false single)
+    (hsame : layoutCmds multi = layoutCmds single)
+    (hc : ∀ id ∈ ids, CmdsOk (trackOf id s).strip (layoutCmds multi)) :
+    ∃ s1' s2', readLines n1 (multi.map LLine.text) s = .ok () s1' ∧ readLines n2 (single.map LLine.text) s = .ok () s2' ∧
+      (trackOf a s1').strip = (trackOf a s2').strip ∧ (trackOf a s1').getEvents = (trackOf a s2').getEvents := by
+  obtain ⟨hcov, hok1', hc'⟩ := L2.hyps_of_old ids multi false s (List.ne_nil_of_mem ha) hok1 hc
+  exact C06_multitrack_eq_single2_partial ids a multi single n1 n2 s ha hnd hok1'
+    (L2.linesOk_of_old [a] single false hok2 (by rw [← hsame]; exact hcov)) hsame hc'
+
+/-- the hypotheses of the three `…_from_v2` theorems are those of the round-2 theorems: they hold
+for the round-2 example layouts `exMulti` / `exSingle` (`AB o4 c d8. r > e+:12 &` and its four-line
+single-track layout), whose commands are all in `LCovered` -/
+example : LinesOk [0, 1] false exMulti ∧ LinesOk [1] false exSingle ∧ [0, 1].Nodup ∧ (1 ∈ [0, 1]) ∧
+    layoutCmds exMulti = layoutCmds exSingle ∧
+    (∀ id ∈ [0, 1], CmdsOk (trackOf id MmlState.init).strip (layoutCmds exMulti)) ∧ (∀ c ∈ exCmds, LCovered c) := by
+  refine ⟨by decide +kernel, by decide +kernel, by decide, by decide, rfl, by decide +kernel, by decide⟩
+
+/-- … so the transfer gives the round-3 hypotheses for the round-2 example -/
+example : L2.LinesOk [0, 1] false exMulti ∧ L2.LinesOk [1] false exSingle ∧
+    (∀ id ∈ [0, 1], L2.CmdsOk (trackOf id MmlState.init).strip (layoutCmds exMulti)) := by
+  have h : LinesOk [0, 1] false exMulti ∧ LinesOk [1] false exSingle ∧
+      (∀ id ∈ [0, 1], CmdsOk (trackOf id MmlState.init).strip (layoutCmds exMulti)) ∧ (∀ c ∈ exCmds, LCovered c) :=
+    ⟨by decide +kernel, by decide +kernel, by decide +kernel, by decide⟩
+  exact ⟨C06_linesOk_transfer _ _ _ h.1 h.2.2.2, C06_linesOk_transfer _ _ _ h.2.1 h.2.2.2,
+    fun id hid => (C06_cmdsOk_transfer _ _ (h.2.2.1 id hid)).1⟩
+
+open Ctrmml.MmlMeaning (Cmd) in
+/-- EVERY NON-EMPTY SEPARATOR WORKS, round-3 set: `C06_separator_suffices` for `LCovered2` /
+`L2.ToksOk` / `L2.LCmdTail`.  Behind a blank, a tab, `|`, the `;` comment or at the end of the line
+the look-ahead condition of every command holds — for the echo `\` when its duration is written
+(`\4`, `\.`, `\:12`).  Behind a bare `\` a separator is read by `get_token()` inside `mml_echo`, the
+case `EchoHead` keeps outside `L2.LCmdTail`: `C06_bare_echo_separator_counterexample`. -/
+theorem C06_separator_suffices2 (t : Track) (cmd : Cmd) (hn : L2.LCmdNums t cmd) (ts : List Tok) (e : List Nat) (hok : L2.ToksOk ts e)
+    (hcov : ∀ c ∈ cmdsOf ts, LCovered2 c) (he : EndOk e) (hts : ∀ c ts', ts ≠ Tok.cmd c :: ts')
+    (hecho : ∀ d, cmd = .echo d → d ≠ .dflt 0) :
+    L2.LCmdTail cmd (toksText ts e) :=
+  L2.cmdTail_of_sep t cmd hn ts e hok hcov he hts hecho
+
+open Ctrmml.MmlMeaning (Cmd) in
+/-- the hypothesis `hecho` of `C06_separator_suffices2` is needed: `\` + blank does not meet `L2.LCmdTail` -/
+theorem C06_bare_echo_separator_counterexample : ¬ L2.LCmdTail (Cmd.echo (.dflt 0)) (toksText [.blank 32] []) :=
+  L2.bare_echo_blank
+
+open Ctrmml.MmlMeaning (Cmd) in
+/-- the hypotheses of `C06_separator_suffices2` on `\4` followed by `<tab>|V+2 /` -/
+example : L2.LCmdNums (Track.new 24) (Cmd.echo (.len { v := 4 } 0)) ∧
+    L2.ToksOk [Tok.blank 9, Tok.bar, Tok.cmd (.simple .volFineUp (some { v := 2 })), Tok.blank 32, Tok.cmd (.simple .loopBreak none)] [] ∧
+    (∀ c ∈ cmdsOf [Tok.blank 9, Tok.bar, Tok.cmd (.simple .volFineUp (some { v := 2 })), Tok.blank 32, Tok.cmd (.simple .loopBreak none)], LCovered2 c) ∧
+    EndOk [] ∧ (∀ d, Cmd.echo (.len { v := 4 } 0) = .echo d → d ≠ .dflt 0) := by
+  refine ⟨by decide, by decide +kernel, by decide, Or.inl rfl, ?_⟩
+  intro d h; cases h; intro h2; cases h2
 
 end Ctrmml.C06
